@@ -30,6 +30,7 @@ type project struct {
 	rules []typeDef
 	all   bool // register every type on every type as well (not only on the root)
 	nest  bool // register the first type on the root only, the second on the first, ... (a chain of registrations)
+	share bool // one object per type and per rule for all the schemas of a history that have the same types and rules
 }
 
 // parseProject reads: <hex root> {T <hexname> J|R <hexbody>} {E <hexname> <hexbody>} [all]
@@ -50,6 +51,9 @@ func parseProject(a []string) (project, []string) {
 		case "nest":
 			p.nest = true
 			i++
+		case "share":
+			p.share = true
+			i++
 		case "N":
 			p.name = string(unhex(a[i+1]))
 			i += 2
@@ -60,10 +64,35 @@ func parseProject(a []string) (project, []string) {
 	return p, nil
 }
 
+// shareCache holds the type and rule objects of the projects with the flag "share" (reset by the hist handler).
+var shareCache = map[string]interface{}{}
+
+func (p project) sig() string {
+	h := sha1.New()
+	for _, t := range append(append([]typeDef{}, p.types...), p.rules...) {
+		fmt.Fprintf(h, "%s|%s|%x|", t.name, t.kind, t.body)
+	}
+	fmt.Fprint(h, p.all)
+	return hex.EncodeToString(h.Sum(nil))
+}
+
+func (p project) rule(r typeDef) *enum.Enum {
+	if !p.share {
+		return enum.New(r.name, append([]byte(nil), r.body...))
+	}
+	key := "E|" + r.name + "|" + string(r.body) + "|" + p.sig()
+	if e, ok := shareCache[key]; ok {
+		return e.(*enum.Enum)
+	}
+	e := enum.New(r.name, append([]byte(nil), r.body...))
+	shareCache[key] = e
+	return e
+}
+
 func (p project) newSchema(name string, body []byte) (*jschema.JSchema, error) {
 	s := jschema.New(name, append([]byte(nil), body...))
 	for _, r := range p.rules {
-		if err := s.AddRule(r.name, enum.New(r.name, append([]byte(nil), r.body...))); err != nil {
+		if err := s.AddRule(r.name, p.rule(r)); err != nil {
 			return s, fmt.Errorf("addrule:%s", errAt(err))
 		}
 	}
@@ -141,6 +170,47 @@ func (p project) addTypes(root *jschema.JSchema) error {
 			}
 		}
 		return s, nil
+	}
+	if p.share {
+		objs := make([]schema.Schema, len(p.types))
+		fresh := make([]bool, len(p.types))
+		for i, t := range p.types {
+			key := "T|" + t.name + "|" + t.kind + "|" + string(t.body) + "|" + p.sig()
+			if o, ok := shareCache[key]; ok {
+				objs[i] = o.(schema.Schema)
+				continue
+			}
+			fresh[i] = true
+			if t.kind == "R" {
+				objs[i] = regex.New(t.name, append([]byte(nil), t.body...))
+			} else {
+				js, err := p.newSchema(t.name, t.body)
+				if err != nil {
+					return err
+				}
+				objs[i] = js
+			}
+			shareCache[key] = objs[i]
+		}
+		if p.all {
+			for i := range p.types {
+				js, ok := objs[i].(*jschema.JSchema)
+				if !ok || !fresh[i] {
+					continue
+				}
+				for j, u := range p.types {
+					if err := js.AddType(u.name, objs[j]); err != nil {
+						return fmt.Errorf("addtype:%s", errAt(err))
+					}
+				}
+			}
+		}
+		for i, t := range p.types {
+			if err := root.AddType(t.name, objs[i]); err != nil {
+				return fmt.Errorf("addtype:%s", innerCode(err))
+			}
+		}
+		return nil
 	}
 	if p.nest {
 		var next schema.Schema
@@ -606,6 +676,38 @@ func init() {
 		out := "check=ok keys=" + dash(strings.Join(inh, ",")) + " ex=" + dash(exk) + " info=" + dash(info) + " deep=" + dash(deep)
 		if reqbad != "" {
 			out += " reqbad=" + strings.ReplaceAll(reqbad, " ", "_")
+		}
+		// the registered types as the compiled root schema knows them: an heir among them has its inherited members too
+		tkeys := guard(func() string {
+			var names []string
+			for nm := range s.Inner.TypesList() {
+				names = append(names, nm)
+			}
+			sort.Strings(names)
+			var parts []string
+			for _, nm := range names {
+				t := s.Inner.TypesList()[nm]
+				if strings.HasPrefix(nm, "#") || t.Schema == nil {
+					continue
+				}
+				on, ok := t.Schema.RootNode().(*ischema.ObjectNode)
+				if !ok {
+					continue
+				}
+				var ks []string
+				for idx, ch := range on.Children() {
+					opt := "0"
+					if ischema.IsOptionalNode(ch) {
+						opt = "1"
+					}
+					ks = append(ks, fmt.Sprintf("%s:%s:%s", on.Key(idx).Key, opt, ch.InheritedFrom()))
+				}
+				parts = append(parts, nm+"="+dash(strings.Join(ks, ",")))
+			}
+			return strings.Join(parts, ";")
+		})
+		if tkeys != "" {
+			out += " tkeys=" + tkeys
 		}
 		return out
 	}
